@@ -1,3 +1,5 @@
+#include <set>
+
 #include <occa/core/device.hpp>
 #include <occa/core/base.hpp>
 #include <occa/internal/core/device.hpp>
@@ -336,48 +338,67 @@ namespace occa {
   }
 
   hash_t device::applyDependencyHash(const hash_t &kernelHash) const {
-    // Check if the build.json exists to compare dependencies
-    const std::string buildFile = io::hashDir(kernelHash) + kc::buildFile;
-    if (!io::exists(buildFile)) {
-      return kernelHash;
-    }
+    // Follow the chain of dependency-specific hashes until reaching a hash that
+    // was not built yet or whose recorded dependencies are all unchanged
+    hash_t currentHash = kernelHash;
+    std::set<std::string> visitedDirs;
 
-    json buildJson = json::read(buildFile);
-    json dependenciesJson = buildJson["kernel/dependencies"];
-    if (!dependenciesJson.isInitialized()) {
-      return kernelHash;
-    }
-
-    hash_t newKernelHash = kernelHash;
-    bool foundDependencyChanges = false;
-
-    jsonObject dependencyHashes = dependenciesJson.object();
-    jsonObject::iterator it = dependencyHashes.begin();
-    while (it != dependencyHashes.end()) {
-      const std::string &dependency = it->first;
-      const hash_t dependencyHash = hash_t::fromString(it->second);
-
-      if (io::exists(dependency)) {
-        // Check whether the dependency changed
-        hash_t newDependencyHash = hashFile(dependency);
-        newKernelHash ^= newDependencyHash;
-
-        if (dependencyHash != newDependencyHash) {
-          foundDependencyChanges = true;
-        }
-      } else {
-        // Dependency is missing so something changed
-        foundDependencyChanges = true;
+    while (true) {
+      // Check if the build.json exists to compare dependencies
+      const std::string hashDir = io::hashDir(currentHash);
+      const std::string buildFile = hashDir + kc::buildFile;
+      if (!io::exists(buildFile)) {
+        return currentHash;
       }
 
-      ++it;
-    }
+      json buildJson = json::read(buildFile);
+      json dependenciesJson = buildJson["kernel/dependencies"];
+      if (!dependenciesJson.isInitialized()) {
+        return currentHash;
+      }
 
-    if (foundDependencyChanges) {
-      // Recursively check if new kernels had their dependencies changed
-      return applyDependencyHash(newKernelHash);
+      // The next hash is the hash of the current one together with each recorded
+      // file and its current hash.  (XOR-ing the file hashes into the kernel hash
+      // led back to an earlier hash whenever they cancelled, e.g. after two files
+      // got the same contents or exchanged contents: an endless recursion)
+      json currentDependencies(json::object_);
+      bool foundDependencyChanges = false;
+
+      jsonObject dependencyHashes = dependenciesJson.object();
+      jsonObject::iterator it = dependencyHashes.begin();
+      while (it != dependencyHashes.end()) {
+        const std::string &dependency = it->first;
+        const hash_t dependencyHash = hash_t::fromString(it->second);
+
+        if (io::exists(dependency)) {
+          // Check whether the dependency changed
+          hash_t newDependencyHash = hashFile(dependency);
+          currentDependencies.set(dependency, newDependencyHash.getFullString());
+
+          if (dependencyHash != newDependencyHash) {
+            foundDependencyChanges = true;
+          }
+        } else {
+          // Dependency is missing so something changed
+          foundDependencyChanges = true;
+        }
+
+        ++it;
+      }
+
+      if (!foundDependencyChanges) {
+        return currentHash;
+      }
+
+      OCCA_ERROR("Kernel dependency hashes lead back to [" << hashDir << "]",
+                 visitedDirs.insert(hashDir).second);
+
+      // Check if new kernels had their dependencies changed
+      json nextKey;
+      nextKey["hash"] = currentHash.getFullString();
+      nextKey["dependencies"] = currentDependencies;
+      currentHash = occa::hash(nextKey);
     }
-    return kernelHash;
   }
 
   kernel device::buildKernel(const std::string &filename,
